@@ -84,6 +84,11 @@ Theorem C08_domain_is_whole_alphabet : forall st o,
   | OCompressSite i _ | OMeasure i _ => i < L
   | OSingVals _ | OGate1 _ _ | ODroppedCopy _ _ _ => True
   | OLocalExpMany ws _ => Forall (fun w => fst w < L /\ snd w < L) ws
+  (* the two operations that do NOT take the record: a scalar rescale keeps a pair
+     record true only for sites inside the recorded range; a fresh record is anything
+     but a pair *)
+  | OScale ss => match rec st with RSome a b => Forall (fun s => a <= s /\ s <= b) ss | _ => True end
+  | OSetRecord r => match r with RSome _ _ => False | _ => True end
   end.
 Proof. intros st o. destruct o; simpl; tauto. Qed.
 Print Assumptions C08_domain_is_whole_alphabet.
@@ -165,10 +170,10 @@ Example C08_env_demo :
   /\ env Z 0%Z 1%Z Z.add Z.mul (fun z => z) A D d 1 (fun _ => 0) 1 1 = 1%Z.
 Proof. vm_compute. repeat split. Qed.
 
-(* non-vacuity: a 12-operation history through every formerly refuted operation
+(* non-vacuity: a 13-operation history through every formerly refuted operation
    (adjacent swap with default absorb, distant swap and swap_site_to with
    absorb='both', non-unitary one-site gate, compress_site without canonize, a
-   sampled copy, removal of the measured LAST site) from an uncanonicalised
+   sampled copy, removal of the measured LAST site, a rescale of the centre) from an uncanonicalised
    5-site state and an empty info dict lies in the theorem's domain, runs to
    the end (4 sites left) and ends with record (1, 1), sound *)
 Example C08_demo :
